@@ -766,3 +766,182 @@ Proof.
 Qed.
 
 End Sat.
+
+(* ---------- the theorems ---------- *)
+
+Lemma in_range_nil n : in_range n [].
+Proof. intros l []. Qed.
+
+(* anomalies/sat.rs `sat` on a fresh vector decides satisfiability of the partial configuration *)
+Theorem sat_correct : forall C n A, WFQ C n -> 0 < root_count C -> in_range n A ->
+  sat (build C n) A = (0 <? MCA C n A).
+Proof.
+  intros C n A HQ Hrc HA.
+  destruct (call_St C n HQ Hrc [] A (mark0 C) (in_range_nil n) HA (or_introl (inv_init C))) as [H _].
+  exact H.
+Qed.
+
+(* One shared mark vector, root_index = None.  The k-th answer is the satisfiability of everything
+   asserted so far, provided no EARLIER call was cut short by the core test (an early `return false`
+   inside the loop is harmless: the root stays marked and every later answer is `false`, which is
+   right because the accumulated configuration stays unsatisfiable). *)
+Theorem sat_incremental_strong : forall C n (As : list cfg),
+  WFQ C n -> 0 < root_count C -> Forall (in_range n) As ->
+  let answers := sat_chain (build C n) As (map (fun _ => false) C) in
+  forall k, (k < length As)%nat ->
+    (forall j, (j < k)%nat -> existsb (makes_unsat (build C n)) (nth j As []) = false) ->
+    nth k answers false = (0 <? MCA C n (concat (firstn (S k) As))).
+Proof.
+  intros C n As HQ Hrc HAs answers k Hk Hprev.
+  exact (chain_strong C n HQ Hrc As [] (mark0 C) (in_range_nil n) HAs (or_introl (inv_init C)) k Hk Hprev).
+Qed.
+
+Theorem sat_incremental : forall C n (As : list cfg),
+  WFQ C n -> 0 < root_count C -> Forall (in_range n) As ->
+  let answers := sat_chain (build C n) As (map (fun _ => false) C) in
+  forall k, (k < length As)%nat ->
+    (forall j, (j < k)%nat -> nth j answers false = true) ->
+    nth k answers false = (0 <? MCA C n (concat (firstn (S k) As))).
+Proof.
+  intros C n As HQ Hrc HAs answers k Hk Hprev.
+  apply (sat_incremental_strong C n As HQ Hrc HAs k Hk).
+  intros j Hj. apply (chain_true_no_core C n As (mark0 C) j). now apply Hprev.
+Qed.
+
+(* ---- sub-root variant (t_wise_sampling/sat_wrapper.rs is_sat_in_subgraph_cached) ---- *)
+
+(* calls with arbitrary root_index sharing one vector *)
+Fixpoint sat_chain_sub (d : ddnnf) (Qs : list (cfg * option nat)) (mark : list bool) : list bool :=
+  match Qs with
+  | [] => []
+  | (A, ro) :: Qs' =>
+    let res := sat_propagate d A mark ro in
+    snd res :: sat_chain_sub d Qs' (fst res)
+  end.
+
+(* the node a root_index stands for *)
+Definition root_of (C : circuit) (ro : option nat) : nat :=
+  match ro with Some r => r | None => (length C - 1)%nat end.
+
+Definition live_root (C : circuit) (ro : option nat) : Prop :=
+  (root_of C ro < length C)%nat /\ 0 < nth (root_of C ro) (counts C) 0.
+
+Lemma chain_sub_gen C n (HQ : WFQ C n) : forall Qs P m,
+  Forall (fun q => live_root C (snd q)) Qs -> Inv C P m ->
+  forall k, (k < length Qs)%nat ->
+  (forall j, (j < k)%nat -> nth j (sat_chain_sub (build C n) Qs m) false = true) ->
+  nth k (sat_chain_sub (build C n) Qs m) false =
+  negb (existsb (makes_unsat (build C n)) (fst (nth k Qs ([], None)))) &&
+  (0 <? nth (root_of C (snd (nth k Qs ([], None))))
+            (countsA (P ++ concat (map fst (firstn (S k) Qs))) C) 0).
+Proof.
+  induction Qs as [|[A ro] Qs IH]; intros P m HL HI k Hk Hprev; [cbn in Hk; lia|].
+  inversion HL as [|? ? [Hr Hpos] HL']; subst. cbn [snd] in Hr, Hpos.
+  cbn [sat_chain_sub] in *.
+  destruct (existsb (makes_unsat (build C n)) A) eqn:Ecore.
+  - (* the call is answered by the core test *)
+    assert (Hres : sat_propagate (build C n) A m ro = (m, false)) by (rewrite sat_propagate_eq, Ecore; reflexivity).
+    destruct k as [|k].
+    + cbn [nth fst snd]. rewrite Hres, Ecore. reflexivity.
+    + specialize (Hprev 0%nat ltac:(lia)). cbn [nth] in Hprev. rewrite Hres in Hprev. discriminate.
+  - destruct (call_inv C n HQ P A m ro Hr Hpos HI Ecore) as [H1 [H2 _]].
+    destruct k as [|k].
+    + cbn [nth fst snd firstn map concat]. rewrite app_nil_r, Ecore. exact H1.
+    + cbn [nth]. change (firstn (S (S k)) ((A, ro) :: Qs)) with ((A, ro) :: firstn (S k) Qs).
+      cbn [map fst concat]. rewrite app_assoc. apply IH.
+      * exact HL'.
+      * apply H2. apply (Hprev 0%nat). lia.
+      * cbn in Hk. lia.
+      * intros j Hj. apply (Hprev (S j)). lia.
+Qed.
+
+(* With `Some r` (or None) as root_index, as long as every earlier call on the shared vector
+   answered `true`, the answer is: no literal is refuted by the core, and the node r still has a
+   model under everything asserted so far (countsA at r is positive). *)
+Theorem sat_subroot_incremental : forall C n (Qs : list (cfg * option nat)),
+  WFQ C n -> Forall (fun q => live_root C (snd q)) Qs ->
+  let answers := sat_chain_sub (build C n) Qs (map (fun _ => false) C) in
+  forall k, (k < length Qs)%nat ->
+    (forall j, (j < k)%nat -> nth j answers false = true) ->
+    nth k answers false =
+    negb (existsb (makes_unsat (build C n)) (fst (nth k Qs ([], None)))) &&
+    (0 <? nth (root_of C (snd (nth k Qs ([], None))))
+              (countsA (concat (map fst (firstn (S k) Qs))) C) 0).
+Proof.
+  intros C n Qs HQ HL answers k Hk Hprev.
+  exact (chain_sub_gen C n HQ Qs [] (mark0 C) HL (inv_init C) k Hk Hprev).
+Qed.
+
+Theorem sat_subroot : forall C n A r,
+  WFQ C n -> (r < length C)%nat -> 0 < nth r (counts C) 0 ->
+  snd (sat_propagate (build C n) A (map (fun _ => false) C) (Some r)) =
+  negb (existsb (makes_unsat (build C n)) A) && (0 <? nth r (countsA A C) 0).
+Proof.
+  intros C n A r HQ Hr Hpos.
+  assert (HL : Forall (fun q : cfg * option nat => live_root C (snd q)) [(A, Some r)]).
+  { constructor; [|constructor]. split; assumption. }
+  pose proof (sat_subroot_incremental C n [(A, Some r)] HQ HL 0%nat ltac:(cbn; lia)
+                ltac:(intros j Hj; lia)) as H.
+  cbn [sat_chain_sub nth fst snd firstn map concat root_of] in H. rewrite app_nil_r in H. exact H.
+Qed.
+
+(* ---------- witnesses: why the provisos are stated ---------- *)
+
+(* x1 /\ (x2 \/ -x2): feature 1 is core *)
+Definition ex_core : circuit := [Lit 1; Lit 2; Lit (-2); Or [1;2]%nat; And [0;3]%nat].
+(* x1 <-> x2 (the same vector as Props/C01.v ex_iff) *)
+Definition ex_iff' : circuit :=
+  [Lit 1; Lit (-1); Lit 2; Lit (-2); And [0;2]%nat; And [1;3]%nat; Or [4;5]%nat].
+
+Lemma ex_core_wfq : WFQ ex_core 2 /\ 0 < root_count ex_core.
+Proof. split; [apply check_wf_WFQ|]; vm_compute; reflexivity. Qed.
+Lemma ex_iff'_wfq : WFQ ex_iff' 2 /\ 0 < root_count ex_iff'.
+Proof. split; [apply check_wf_WFQ|]; vm_compute; reflexivity. Qed.
+
+(* A call that is answered by the core test leaves the vector untouched, so its literals are
+   forgotten: [-1] is refuted by the core, then [] is answered `true` although -1 was asserted. *)
+Theorem sat_incremental_proviso_needed : exists C n (As : list cfg) k,
+  WFQ C n /\ 0 < root_count C /\ Forall (in_range n) As /\ (k < length As)%nat /\
+  let answers := sat_chain (build C n) As (map (fun _ => false) C) in
+  (exists j, (j < k)%nat /\ nth j answers false = false) /\
+  nth k answers false = true /\
+  sat (build C n) (concat (firstn (S k) As)) = false /\
+  MCA C n (concat (firstn (S k) As)) = 0.
+Proof.
+  exists ex_core, 2%nat, [[-1]; []], 1%nat.
+  split; [apply ex_core_wfq|]. split; [apply ex_core_wfq|]. split.
+  { constructor; [|constructor; [|constructor]]; intros l Hl; cbn in Hl; [|contradiction].
+    destruct Hl as [<-|[]]. cbn. lia. }
+  split; [cbn; lia|]. cbv zeta. split; [exists 0%nat; split; [lia|vm_compute; reflexivity]|].
+  repeat split; vm_compute; reflexivity.
+Qed.
+
+(* With sub-roots the early `return false` inside the loop matters too: the call ([-1;-2], node 4)
+   stops after -1 (node 4 is marked), -2 is never propagated, and the next call ([], node 2 = Lit 2)
+   answers `true` although node 2 has no model under the accumulated literals. *)
+Theorem sat_subroot_proviso_needed : exists C n (Qs : list (cfg * option nat)) k,
+  WFQ C n /\ Forall (fun q => live_root C (snd q)) Qs /\ (k < length Qs)%nat /\
+  let answers := sat_chain_sub (build C n) Qs (map (fun _ => false) C) in
+  (exists j, (j < k)%nat /\ nth j answers false = false) /\
+  existsb (makes_unsat (build C n)) (concat (map fst Qs)) = false /\
+  nth k answers false = true /\
+  nth (root_of C (snd (nth k Qs ([], None)))) (countsA (concat (map fst (firstn (S k) Qs))) C) 0 = 0.
+Proof.
+  exists ex_iff', 2%nat, [([-1; -2], Some 4%nat); ([], Some 2%nat)], 1%nat.
+  split; [apply ex_iff'_wfq|]. split.
+  { repeat constructor; vm_compute; reflexivity || lia. }
+  split; [cbn; lia|]. cbv zeta. split; [exists 0%nat; split; [lia|vm_compute; reflexivity]|].
+  repeat split; vm_compute; reflexivity.
+Qed.
+
+(* The core test is part of the sub-root answer: it refutes [-1] although node 1 (Lit 2) has a model. *)
+Theorem sat_subroot_core_guard_needed : exists C n A r,
+  WFQ C n /\ (r < length C)%nat /\ 0 < nth r (counts C) 0 /\ in_range n A /\
+  snd (sat_propagate (build C n) A (map (fun _ => false) C) (Some r)) = false /\
+  0 < nth r (countsA A C) 0.
+Proof.
+  exists ex_core, 2%nat, [-1], 1%nat.
+  split; [apply ex_core_wfq|]. split; [cbn; lia|]. split; [vm_compute; reflexivity|]. split.
+  { intros l [<-|[]]. cbn. lia. }
+  split; vm_compute; reflexivity.
+Qed.
